@@ -13,22 +13,6 @@ import (
 	"github.com/imroc/req/v3/internal/verifh"
 )
 
-// c14ZSizes draws 1-4 Read buffer sizes: zero-length reads, one byte, primes, sizes beyond any
-// body; at least one of them is not zero.
-func c14ZSizes(r interface{ Intn(int) int }) []int {
-	pool := []int{0, 0, 1, 1, 2, 3, 7, 13, 16, 97, 512, 4099, 65536, 200003}
-	s := make([]int, 1+r.Intn(4))
-	nz := false
-	for i := range s {
-		s[i] = pool[r.Intn(len(pool))]
-		nz = nz || s[i] > 0
-	}
-	if !nz {
-		s[r.Intn(len(s))] = 1 + r.Intn(9)
-	}
-	return s
-}
-
 // TestVerif_C14_containers: the Lean model's encoders (gzip members with every header-field
 // combination around stored DEFLATE blocks, raw stored streams, the zlib wrapper) produce the
 // bodies; GzipReader / DeflateReader read them - intact, cut, damaged, followed by garbage,
@@ -55,7 +39,7 @@ func TestVerif_C14_containers(t *testing.T) {
 	}
 	var runs []*run
 	for i, st := range streams {
-		sizes := c14ZSizes(r)
+		sizes := verifc14.Sizes(r)
 		chunk := 0
 		if r.Intn(2) == 0 {
 			chunk = 1 + r.Intn(40)
